@@ -5,6 +5,7 @@ def declare(E):
     from contracts import message
     message.declare(E)
     message.light_readers(E)
+    message.declare_mpint(E)          # full get_mpint contract: _sigdecode must decode r and s as signed mpints
     E.auto_opaque = True
     E.declare_ghost(lib_verify_calls="int")
     # library verification primitives and the exception classes they were observed to raise (probed natively)
@@ -24,7 +25,14 @@ def declare(E):
     E.declare_class("paramiko.rsakey.RSAKey", {"key": "opaque:CryptoPub"})
     E.declare_class("paramiko.ecdsakey.ECDSAKey", {"verifying_key": "opaque:CryptoPub", "ecdsa_curve": "obj:_ECDSACurve"})
     E.declare_class("paramiko.ecdsakey._ECDSACurve", {"key_format_identifier": "str", "hash_object": "opaque:HashCtor"})
-    E.contract("paramiko.ecdsakey.ECDSAKey._sigdecode", returns="tuple[int,int]", raises={}, modifies=[])
+    B = "sig"
+    L1 = "unpack32(sig[0:4])"
+    L2 = "unpack32(sig[4 + %s:8 + %s])" % (L1, L1)
+    E.contract("paramiko.ecdsakey.ECDSAKey._sigdecode", params={"sig": "bytes"}, returns="tuple[int,int]",
+               ensures={"r_and_s_are_the_two_signed_mpints_of_the_blob":
+                        "implies(len(sig) >= 4 and %s <= len(sig) - 8 and %s <= len(sig) - 8 - %s,"
+                        " result[0] == tcval(sig[4:4 + %s]) and result[1] == tcval(sig[8 + %s:8 + %s + %s]))" % (L1, L2, L1, L1, L1, L1, L2)},
+               raises={}, modifies=[])
     E.opaque_attrs = {"NaclSigningKey": {"verify_key": "opaque:NaclVerifyKey"}, "CryptoPub": {"key_size": "nat"}}
     E.opaque_contracts["HashCtor"] = dict(argnames=["self"], returns="opaque:HashObj")
     POS = {"msg_pos": "0 <= msg.packet.tell() and msg.packet.tell() <= len(msg.packet.getvalue())"}
